@@ -459,8 +459,9 @@ class Robust:
                 y = to_yin(nm, tx)
                 if y:
                     yin.append(y)
-        for tx in yin:
-            A(out, "seed-yin", L("yin", hexs(tx)))
+        for i, tx in enumerate(yin):
+            # the converted forms are what the YIN printer of the tree writes; not all of them are accepted back (C10)
+            A(out, "seed-yin" if i < len(YIN_SEEDS) else "conv-yin", L("yin", hexs(tx)))
         for tx in XML_SEEDS:
             for po in POPTS:
                 A(out, "seed-xml", L("data", "x", po, rng.choice(VOPTS), hexs(tx)))
@@ -629,15 +630,33 @@ class Robust:
             return "timeout:%s:%s" % (entry, shape or label.split(":")[0])
         if out.startswith("CRASH"):
             if "Assertion" in (err or ""):
-                am = re.search(r"(\w+\.c):\d+: (\w+): Assertion", err)
-                return "assert:%s" % (am.group(2) if am else entry)
+                # gcc prints the function name, clang its whole signature
+                am = re.search(r"\w+\.c:\d+: (.*?): Assertion `(.*?)'", err)
+                fn = "?"
+                if am:
+                    sig = am.group(1)
+                    fm = re.search(r"(\w+)\s*\(", sig)
+                    fn = fm.group(1) if fm else sig.split()[-1]
+                return "assert:%s" % fn
             # release build: no report; a deep / long input that kills the process is taken for the stack overflow
             return "stack-overflow:%s:?" % shape if shape else "crash:%s" % entry
-        m = re.search(r"!leak\(([^,)]*),([^)]*)\)", out)
+        m = re.search(r"!leak\(([^)]*)\)", out)
         if m:
-            return "leak:%s" % m.group(1)
+            fr = m.group(1).split(",")
+            # generic constructors are named by the first caller that belongs to a parser / compiler
+            generic = ("lyd_create_", "lyd_parser_create_", "lydjson_create_", "dict_insert", "lydict_insert", "ly_set_", "lyd_new_", "lyd_dup")
+            for fn in fr:
+                if not fn.startswith(generic) and fn != "?":
+                    return "leak:%s" % fn
+            return "leak:%s" % fr[0]
         bang = re.findall(r"!([a-z-]+)", out)
-        return "post:%s:%s" % (bang[0] if bang else "?", entry)
+        what = entry
+        if entry == "data" and len(f) > 5:
+            # the error paths of the two data parsers differ with the format and with multi-error validation
+            what = "data-%s%s" % ("xml" if f[2] == "x" else "json", "-multi" if (int(f[4], 0) & VAL_MULTI) else "")
+        elif entry == "op" and len(f) > 4:
+            what = "op-%s-%s" % (f[2], f[3])
+        return "post:%s:%s" % (bang[0] if bang else "?", what)
 
     def judge(self, line, out):
         err = getattr(self, "last_err", "")
